@@ -183,7 +183,8 @@ def hostile_spec(rng):
                     continue
                 x = rng.random()
                 if x < 0.3:
-                    o = rng.choice([o for o in range(-k, L - k) if o != 0] or [None])
+                    # (offset 0 = attach to itself, occasionally: the engine must refuse it without detaching anything it should not)
+                    o = rng.choice([o for o in range(-k, L - k) if o != 0 or rng.random() < 0.3] or [None])
                     if o is not None:
                         a.append(('attach', o))
                 if x > 0.8 and reassoc:
@@ -245,6 +246,10 @@ def hostile_spec(rng):
         c = rng.randrange(ncls)
         spec['passes'].append({'type': 'pos', 'pre': 1, 'maxloop': 3, 'rules': [
             {'pre': 1, 'pat': [-1, -1], 'acts': [[('attach', -1), ('attr', 'AttX', ('const', 10))]], 'cons': [None, None], 'ret': 0}]})
+        if rng.random() < 0.5:
+            # the same pass again: every glyph is re-attached to the parent it already has
+            spec['passes'].append({'type': 'pos', 'pre': 1, 'maxloop': 3, 'rules': [
+                {'pre': 1, 'pat': [-1, -1], 'acts': [[('attach', -1)]], 'cons': [None, None], 'ret': 0}]})
     elif kind == 3:
         # mutual / re-attachment in both directions inside one rule
         spec['passes'].append({'type': 'pos', 'pre': 0, 'maxloop': 5, 'rules': [
